@@ -11,6 +11,7 @@
 import DropletsVerif.Lemmas.RealInst
 import DropletsVerif.Generated.Profile
 import DropletsVerif.Model.Render
+import DropletsVerif.Lemmas.BallConn
 import Mathlib.Tactic
 import Mathlib.Algebra.Order.Floor.Ring
 import Mathlib.Data.Rat.Floor
@@ -196,5 +197,52 @@ theorem emulsionField_range (fs : List (List ℚ)) (n : ℕ) : ∀ v ∈ emulsio
 example :
     let a : Axis := ⟨0, 1, 8, true⟩
     a.diff ((5 : ℚ) / 4 + 3 * 1) 1 = a.diff (5 / 4) 6 := by decide +kernel
+
+end DV.C03
+
+/-! ### the whole image rolls -/
+
+namespace DV.C03
+open DV.Render DV.BallConn
+
+/-- **Translating a droplet by `m` whole cells along a periodic axis rolls the whole (sharp) image by `m` cells.**
+For every grid, every centre and radius: the cell with multi-index `idx` is covered by the droplet shifted by
+`m·dx` along the periodic axis `k` iff the cell obtained by moving `idx` back by `m` cells along that axis
+(cyclically: index `j` with `i ≡ j + m (mod n)`) is covered by the unshifted droplet.  The smooth profile
+depends on a cell only through the same squared distance, so the statement carries over to every droplet
+class (`render_roll` is the per-axis fact). -/
+theorem image_roll (axes : List Axis) (ctr : List ℚ) (idx : List ℕ) (R : ℚ) (k : ℕ)
+    (h1 : k < axes.length) (h2 : k < ctr.length) (h3 : k < idx.length)
+    (hp : (axes.getD k default).periodic = true) (hdx : (axes.getD k default).dx ≠ 0) (hn : (axes.getD k default).n ≠ 0)
+    (m t : ℤ) (j : ℕ) (hij : (idx.getD k 0 : ℤ) = j + m + t * (axes.getD k default).n) :
+    inside axes (ctr.set k (ctr.getD k 0 + m * (axes.getD k default).dx)) R idx = inside axes ctr R (idx.set k j) := by
+  unfold inside
+  congr 1
+  rw [dist2_eq_dist2r, dist2_eq_dist2r]
+  -- both sides differ from dist2r axes ctr idx only in the k-th summand, and those summands agree
+  have key : ∀ (axes : List Axis) (ctr : List ℚ) (idx : List ℕ) (k : ℕ), k < axes.length → k < ctr.length → k < idx.length →
+      ∀ (c' : ℚ) (j : ℕ), (axes.getD k default).diff c' (idx.getD k 0) = (axes.getD k default).diff (ctr.getD k 0) j →
+      dist2r axes (ctr.set k c') idx = dist2r axes ctr (idx.set k j) := by
+    intro axes
+    induction axes with
+    | nil => intro ctr idx k h; simp at h
+    | cons a as ih =>
+      intro ctr idx k h1 h2 h3 c' j hd
+      cases ctr with
+      | nil => simp at h2
+      | cons c cs =>
+        cases idx with
+        | nil => simp at h3
+        | cons i is =>
+          cases k with
+          | zero =>
+            simp only [List.set_cons_zero, dist2r]
+            simp only [List.getD_cons_zero] at hd
+            rw [hd]
+          | succ k =>
+            simp only [List.set_cons_succ, dist2r]
+            simp only [List.getD_cons_succ] at hd
+            rw [ih cs is k (by simpa using h1) (by simpa using h2) (by simpa using h3) c' j hd]
+  exact congrArg (· < R * R) (key axes ctr idx k h1 h2 h3 _ j (render_roll _ hp hdx hn _ m t _ j hij))
 
 end DV.C03
